@@ -15,10 +15,13 @@ Init == src = <<>> /\ n = 0 /\ cx \in Ctxs
 Next == n < MaxFrags /\ \E f \in Frags : src' = src \o f /\ n' = n + 1 /\ UNCHANGED cx
 Paused == IF cx = None THEN PauseDoc(src, FALSE) ELSE PauseFrag(src, cx, FALSE)
 LastK(s, k) == IF Len(s) <= k THEN s ELSE SubSeq(s, Len(s) - k + 1, Len(s))
+RECURSIVE AfeSeq(_, _)          \* entries of the list of active formatting elements with their attributes (Noah's ark compares them)
+AfeSeq(ps, ids) == IF ids = <<>> THEN <<>>
+                   ELSE <<IF ids[1] = 0 THEN <<"marker">> ELSE <<ps.nodes[ids[1]].n, ps.nodes[ids[1]].a>>>> \o AfeSeq(ps, Tail(ids))
 Abs(r) ==
     LET ps == r.ps IN
     <<ps.mode, IF ps.mode = "text" THEN ps.orig ELSE "", IF ps.mode = "inTableText" THEN ps.pttOrig ELSE "",
-      LastK(NameSeq(ps, ps.open), 2), LastK(NameSeq(ps, ps.afe), 4), ps.form # 0, r.ts.st>>
+      LastK(NameSeq(ps, ps.open), 2), LastK(AfeSeq(ps, ps.afe), 4), ps.form # 0, r.ts.st>>
 View == <<cx, Abs(Paused)>>
 ThmExport == PrintT(ToJson([src |-> src, cx |-> cx, mode |-> Paused.ps.mode]))
 =============================================================================
